@@ -2458,3 +2458,125 @@ def run_c02(ctx):
 
 
 REGISTRY["C02"] = dict(module="Properties_C02", run=run_c02)
+
+
+# ------------------------------------------------------------------------------------------
+# C17: the C++ binding
+
+import gen_cpp
+
+
+def c17_filter(l):
+    """wrapper objects live in the hooks: the model marks them 1, the implementation stores a pointer; the calls
+    of Config's own destructor are not visible from outside (LeakSanitizer accounts for them)"""
+    if l.startswith("L dtor"):
+        return None
+    if l.startswith("T "):
+        f = l.split(" ")
+        if len(f) > 6 and f[6] != "-":
+            f[6] = "1"
+        return " ".join(f)
+    if l.startswith("A "):
+        f = l.split(" ")
+        if len(f) > 7 and f[7] != "-":
+            f[7] = "1"
+        return " ".join(f)
+    return True
+
+
+def c17_oracle(script, rec):
+    """the documented contract (pygen/gen_cpp.py DocCpp) replayed over the script, against the implementation"""
+    bad = []
+    if rec.get("status", "ok") != "ok":
+        err = rec.get("stderr", "")
+        if "LeakSanitizer" in err:
+            bad.append("wrapper objects leaked (LeakSanitizer): %s" % " ".join(err.split()[:40]))
+        elif "AddressSanitizer" in err or "runtime error" in err or rec["status"].startswith("signal"):
+            bad.append("the C++ call crashed: %s %s" % (rec["status"], " ".join(err.split()[:40])))
+    try:
+        exps = gen_cpp.doc_expectations(script)
+        pairs = align(script, [l for l in rec["impl"]])
+    except Exception as e:      # malformed replay script
+        return bad + ["oracle could not interpret the script: %r" % (e,)]
+    for (line, exp), (op, out) in zip(exps, pairs):
+        got = out[0] if out else None
+        if got is None:
+            break                   # the process stopped here
+        if got.endswith(" CHANGED"):
+            bad.append("%s: lookupValue returned false but modified its output argument" % line)
+        if exp is None or exp == gen_cpp.UB:
+            continue
+        ok = got.startswith(exp[1]) if isinstance(exp, tuple) else got == exp
+        if not ok:
+            bad.append("%s: documented %r, C++ API reports %r" % (line, exp if not isinstance(exp, tuple) else exp[1] + "...", got))
+        if len(bad) >= 4:
+            break
+    return bad
+
+
+def c17_cases(rng, n):
+    return [gen_cpp.history(rng, rng.choice([15, 30, 60])) for _ in range(n)]
+
+
+C17_CORPUS = [
+    # the example named in the property: lookupValue(std::string &) on a string that still has its default value
+    "init\nxinit\nxadd . h73 4\nxlook s h73\nxmlook s . h73\nxcast s 0\ndestroy\n",
+    # ranges at the edges
+    "init\nxinit\nxadd . h61 2\nxset l 0 2147483648\nxcast i 0\nxcast u 0\nxset l 0 4294967296\nxcast u 0\nxset l 0 -1\nxcast U 0\nxcast l 0\ndestroy\n",
+    # default format changed after the wrapper exists
+    "init\nxinit\nxadd . h61 1\nxinfo 0\ndeffmt 1\nxinfo 0\ndeffmt 0\nxinfo 0\ndestroy\n",
+    # auto-convert escape of assertType only for numbers
+    "init\nxinit\noption 1 1\nxadd . h73 4\nxadd . h62 5\nxadd . h66 3\nxcast i 0\nxcast f 1\nxcast i 2\nxset i 0 3\nxset f 1 x3ff0000000000000\nxlook i h73\nxlook f h62\ndump\ndestroy\n",
+]
+
+
+def run_c17(ctx):
+    res = Result()
+    rc = replay_cases(ctx)
+    n = 400 if ctx.tier == "quick" else 6000
+    cases = rc if rc is not None else C17_CORPUS + c17_cases(ctx.rng, n)
+    res.rule = ("harness variant cxx: one libconfig::Config whose config_t the C operations of the harness also act on. "
+                "Histories: a tree built through Setting::add/operator= alone (depth 1-3, all 8 types), then 15-60 calls "
+                "drawn from casts to int/unsigned/long long/unsigned long long/double/bool/std::string, Config::lookupValue "
+                "and Setting::lookupValue for the same 7 types (sentinel-initialised outputs), exists, lookup, operator[] "
+                "by name and index, getPath, getType/getFormat/getLength/getIndex/isRoot/is*/getName, iteration, add (named, "
+                "element; valid, duplicate, invalid names; invalid types), remove by name and index, assignments of every "
+                "type (matching, mismatching, with and without auto-convert), setFormat, option and default-format changes, "
+                "each followed by the C call answering the same question; ends with writeFile/readFile/readString (good, "
+                "missing file, syntax errors) and destruction under LeakSanitizer.  Every line is compared three ways: Coq "
+                "model (Cpp.v) vs implementation, and implementation vs the documented contract replayed by "
+                "pygen/gen_cpp.py (DocCpp)")
+    res.distinct = distinct_count(cases)
+    res.distribution["ops"] = summarize_ops(cases)
+    exp_kinds = {}
+    for c in cases[:200]:
+        for l, e in gen_cpp.doc_expectations(c):
+            k = "none" if e is None else ("throw " + e.split(" ")[2] if isinstance(e, str) and e.startswith("R throw") else
+                                          ("prefix" if isinstance(e, tuple) else "value"))
+            exp_kinds[k] = exp_kinds.get(k, 0) + 1
+    res.distribution["documented_outcomes_first_200_cases"] = exp_kinds
+    res.samples = [cases[len(C17_CORPUS)][:1500]] if len(cases) > len(C17_CORPUS) else [cases[0]]
+    correspond(ctx, res, cases, drop_prefixes=("E ",), line_filter=c17_filter, oracle=c17_oracle, variant="cxx",
+               known=lambda s, r, o: match_known("C17", s, r, o))
+    if res.corr_broken and not res.violations:
+        foc = []
+        for text in res.corr_broken:
+            for l in [x for x in text.splitlines() if x.startswith("x")][-2:]:
+                op = {"xcast": "cast", "xlook": "look", "xmlook": "mlook", "xlookup": "lookup", "xidx": "idx", "xmem": "mlook",
+                      "xinfo": "info", "xpath": "path", "xiter": "iter", "xadd": "add_named", "xrm": "rm", "xrmi": "rmi",
+                      "xset": "set", "xsetfmt": "setfmt", "xexists": "look", "xmexists": "mlook"}.get(l.split(" ")[0])
+                if op and op not in foc:
+                    foc.append(op)
+        if foc:
+            rng = random.Random(ctx.seed + 17)
+            extra = [gen_cpp.history(rng, rng.choice([15, 30, 60]), focus=foc + (["add_elem"] if "add_named" in foc else []))
+                     for _ in range(600)]
+            res.notes.append("focus search around %s: %d histories" % (foc, len(extra)))
+            keep = list(res.corr_broken)
+            correspond(ctx, res, extra, drop_prefixes=("E ",), line_filter=c17_filter, oracle=c17_oracle, variant="cxx",
+                       known=lambda s, r, o: match_known("C17", s, r, o), label="search")
+            res.corr_broken = keep
+    return res
+
+
+REGISTRY["C17"] = dict(module="Properties_C17", run=run_c17)
